@@ -371,7 +371,7 @@ static void gen_scenario(char *o, size_t osz, int r) {
   switch (r % 6) {
     case 1: { int sp = 2 + (int)h_below(ninj), sc = 1 + (int)h_below(16); stall_h = (int[]){ 1, 20, 30, 37, 40, 60 }[h_below(6)]; n += snprintf(o + n, osz - n, " stall=%d:%d:%d", sp, sc, stall_h); break; }   /* an injection is 8-15 calls long (was 20..64: never reached; found with round-3 seed m2) */
     case 2: n += snprintf(o + n, osz - n, " kill=%d:%d", 2 + (int)h_below(ninj), 1 + (int)h_below(16)); break;
-    case 3: { int fp = (int)h_below(2 + ninj); n += snprintf(o + n, osz - n, " fault=%d:%d:%d", fp, fp >= 2 ? 1 + (int)h_below(16) : 15 + (int)h_below(120), (int[]){ EIO, ENOSPC, EIO, ENOMEM }[h_below(4)]); break; }
+    case 3: { int fp = (int)h_below(2 + ninj); n += snprintf(o + n, osz - n, " fault=%d:%d:%d", fp, fp >= 2 ? 1 + (int)h_below(16) : fp == 1 ? 1 + (int)h_below(30) /* qmail-clean: a handful of calls per request */ : 15 + (int)h_below(200), (int[]){ EIO, ENOSPC, EIO, ENOMEM }[h_below(4)]); break; }
     case 4: n += snprintf(o + n, osz - n, " crash=%d:%d", 150 + (int)h_below(900), (int)h_below(5)); break;
     default: break;
   }
